@@ -56,6 +56,9 @@ def call_mutates(ctx, fn, b, prims):
     return None
 
 
+ACCEPTED_VERSION = "V3"  # the one format check_version lets through (R-C17.1)
+
+
 def run(ctx):
     F = ctx.F
     cg = ctx.cg
@@ -685,6 +688,10 @@ def run(ctx):
                "%s: the lock guard field is declared (= dropped) after %s" % (adt_id, ", ".join(owners)) if ok else
                "%s declares its lock guard BEFORE %s: when such a handle is the last of the instance, the directory lock is released first and the journal is flushed / synced afterwards — a second opener gets in while the previous instance has not written out its journal yet" % (adt_id, ", ".join(late) or "?"))
 
+    # ---- R-C17.14 the version byte: the writer's and the reader's tables are inverse to each other, the header is
+    #      magic + table byte, and a new database is stamped with the version check_version accepts
+    version_tables(ctx, "R-C17.14")
+
     # ---- cross-cutting disciplines (rules/discipline.py)
     from .. import discipline as D
     # open/lock/marker errors surface
@@ -801,3 +808,78 @@ def _string_consts_of_term(term):
         elif isinstance(c, (list, tuple)) and len(c) == 2 and c[0] == "def":
             out.add(str(c[1]))
     return out
+
+
+def version_tables(ctx, rule):
+    F = ctx.F
+    enc_fn = ctx.fn("version::<impl std::convert::From<version::FormatVersion> for u8>::from", rule)
+    dec_fn = ctx.fn("<version::FormatVersion as std::convert::TryFrom<u8>>::try_from", rule)
+    enc, dec = {}, {}
+    if enc_fn:
+        sws = [b for b, blk in enumerate(enc_fn.blocks) if blk["t"]["k"] == "switch"]
+        if len(sws) == 1:
+            _, labels = A.switch_info(enc_fn, sws[0])
+            for tgt, names in labels.items():
+                vals = {st["rv"]["a"]["const"]["val"] for st in enc_fn.blocks[tgt]["s"]
+                        if st["p"]["l"] == 0 and not st["p"]["p"] and st["rv"]["k"] == "use" and "const" in st["rv"]["a"]}
+                for nm in names:
+                    enc[nm] = vals.pop() if len(vals) == 1 else None
+    if dec_fn:
+        sws = [b for b, blk in enumerate(dec_fn.blocks) if blk["t"]["k"] == "switch"]
+        if len(sws) == 1:
+            t = dec_fn.blocks[sws[0]]["t"]
+            for v, tgt in t["vs"]:
+                var = None
+                for x in A.reach(dec_fn, [tgt]):
+                    for st in dec_fn.blocks[x]["s"]:
+                        if st["rv"]["k"] == "agg" and st["rv"].get("adt") == "version::FormatVersion":
+                            var = st["rv"].get("variant") if var in (None, st["rv"].get("variant")) else "<several>"
+                dec[v] = var
+            # the otherwise edge must not produce a version
+            other = [x for x in dec_fn.succs(sws[0]) if x not in [tg for _, tg in t["vs"]]]
+            for o in other:
+                for x in A.reach(dec_fn, [o]):
+                    for st in dec_fn.blocks[x]["s"]:
+                        if st["rv"]["k"] == "agg" and st["rv"].get("adt") == "version::FormatVersion":
+                            dec["<any other byte>"] = st["rv"].get("variant")
+    fv = F.adts.get("version::FormatVersion")
+    variants = [v["n"] for v in fv["variants"]] if fv else []
+    inv = {v: k for k, v in enc.items()}
+    ok = bool(variants) and set(enc) == set(variants) and None not in enc.values() and len(inv) == len(enc) and dec == inv
+    ctx.ob(rule, enc_fn or "version::FormatVersion", "byte-tables-are-inverse", ok,
+           "u8::from = %s, try_from = its inverse and nothing else" % enc if ok else
+           "writer table %s vs reader table %s (variants %s): a version written by one is read as another / a foreign byte is accepted" % (enc, dec, variants))
+    wh = ctx.fn("version::FormatVersion::write_file_header", rule)
+    if wh and enc_fn:
+        og = ctx.og(wh)
+        magic = [b for b, t in wh.calls() if A.cname(t).endswith("::write_all") and any(
+            x.k == "const" and ((x.a[0] == "bytes" and tuple(x.a[1]) == (70, 74, 76)) or (x.a[0] == "def" and "MAGIC_BYTES" in str(x.a[1])))
+            for a in t["args"] for x in A.walk(og.of_operand(a)))]
+        tab = [(b, t) for b, t in wh.calls() if A.cname(t) == enc_fn.id]
+        wr = [(b, t) for b, t in wh.calls() if A.cname(t).endswith("::write_u8")]
+        ok = len(magic) == 1 and len(tab) == 1 and len(wr) == 1
+        detail = "write_all(MAGIC)=%d, table call=%d, write_u8=%d" % (len(magic), len(tab), len(wr))
+        if ok:
+            a1 = wr[0][1]["args"][1]
+            pl = a1.get("move") or a1.get("copy") or {}
+            from_table = pl.get("l") == tab[0][1]["dest"]["l"] and not pl.get("p")
+            self_arg = A.tstr(og.of_operand(tab[0][1]["args"][0])).startswith("P1")
+            order = A.dominates(wh, magic[0], wr[0][0]) and A.dominates(wh, tab[0][0], wr[0][0])
+            oks = [b for b, blk in enumerate(wh.blocks) if not blk["cleanup"] for st in blk["s"] if st["rv"]["k"] == "agg" and st["rv"].get("variant") == "Ok" and st["p"]["l"] == 0 and not st["p"]["p"]]
+            every = bool(oks) and all(A.dominates(wh, wr[0][0], b) for b in oks)
+            ok = from_table and self_arg and order and every
+            detail = "header = \"FJL\" then u8::from(self), Ok only after both" if ok else \
+                "byte written comes from the table: %s (of self: %s); magic first: %s; Ok only after the byte: %s" % (from_table, self_arg, order, every)
+        ctx.ob(rule, wh, "header-is-magic-then-table-byte", ok, detail)
+    cn = ctx.fn("db::Database::create_new", rule)
+    if cn:
+        og = ctx.og(cn)
+        w = [(b, t) for b, t in cn.calls() if A.cname(t).startswith("version::FormatVersion::write_file_header")]
+        names = set()
+        for b, t in w:
+            names |= A.variants_in(og.of_operand(t["args"][0]), "FormatVersion")
+        ok = len(w) == 1 and names == {ACCEPTED_VERSION}
+        ctx.ob(rule, cn, "new-database-is-stamped-with-the-accepted-version", ok,
+               "create_new writes FormatVersion::%s, the version check_version accepts" % ACCEPTED_VERSION if ok else
+               "create_new stamps %s (%d header writes) but check_version accepts only %s: the database cannot be reopened / a foreign one is taken for ours" % (sorted(names), len(w), ACCEPTED_VERSION),
+               cn.loc(w[0][0]) if w else "")
